@@ -11,8 +11,9 @@
      the multihash codec the number of distinct hash codes fits the int32 count field. *)
 From Coq Require Import Permutation Sorting.Sorted.
 From GoCar Require Import Bytes Varint Cid Index.
-From GoCarProofs Require Import BytesFacts IndexKv IndexSort IndexCompact IndexSearch IndexRoundtrip
-  IndexLoad IndexCanon.
+From GoCar Require Import Header Frame V2Header Scan IndexGen.
+From GoCarProofs Require Import BytesFacts CidFacts IndexKv IndexSort IndexCompact IndexSearch IndexRoundtrip
+  IndexLoad IndexCanon IndexGenFacts IndexGenLookup.
 
 Theorem C11_model_sort_meets_contract :
   forall l, Permutation (sort_by_digest l) l /\
@@ -169,6 +170,32 @@ Theorem C11_flatten_vs_regen_bytes :
     ii_flatten_with srt codec (ii_load rs []) = Some (idx_load_with srt' rs i0).
 Proof. exact flatten_eq_regen_noties. Qed.
 Print Assumptions C11_flatten_vs_regen_bytes.
+
+(* (6') the same with the regenerated side spelled out (uses C03): the session wrote the sections
+   [bs] after the header of [roots]; its insertion index holds their records; regenerating is
+   LoadIndex over the finished payload, from any kind of source *)
+Theorem C11_flatten_vs_regenerated_from_payload :
+  forall (srt srt' : list irec -> list irec) hdrdec k o roots bs codec i0,
+    (forall l, Permutation (srt l) l /\
+               StronglySorted (fun a b => bytes_leb (r_digest a) (r_digest b) = true) (srt l)) ->
+    (forall l, Permutation (srt' l) l /\
+               StronglySorted (fun a b => bytes_leb (r_digest a) (r_digest b) = true) (srt' l)) ->
+    (hdrdec (enc_header (Some roots) 1) = Some (roots, 1) /\
+     blen (enc_header (Some roots) 1) <= g_maxh o /\ blen (enc_header (Some roots) 1) < two63) ->
+    Forall (fun b : block => exists p, cid_ok p /\ fst b = cid_enc p /\
+                                       blen (c_digest p) + 8 <= max_width /\
+                                       blen (fst b) + blen (snd b) < two63) bs ->
+    Forall (fun b : block => section_indexed o (fst b) = true -> blen (fst b) <= g_max_cid o) bs ->
+    blen (enc_payload roots bs) < two63 -> idx_new codec = Some i0 ->
+    exists fi recs,
+      ii_flatten_with srt codec
+        (ii_load (section_recs o (ld_size (blen (enc_header (Some roots) 1))) bs) []) = Some fi /\
+      load_index hdrdec k o (enc_payload roots bs) = Ok recs /\
+      idx_canon fi = idx_canon (idx_load_with srt' recs i0) /\
+      (NoDup (map (fun r => (if codec =? codec_sorted then 0 else r_code r, r_digest r)) recs) ->
+       fi = idx_load_with srt' recs i0).
+Proof. exact flatten_vs_regenerated_payload. Qed.
+Print Assumptions C11_flatten_vs_regenerated_from_payload.
 
 (* the insertion index itself: GetAll yields the offsets of the records with that digest in
    insertion order (LLRB InsertNoReplace keeps equal keys in arrival order) *)
